@@ -14,8 +14,8 @@ QUICK_MS = int(os.environ.get("PYVC_TIMEOUT_MS", "15000"))
 # net (z3 does not always honour its limits): WALL_FACTOR x the nominal budget + WALL_SLACK seconds, after which the context
 # is interrupted and the answer is `unknown` with reason "wall-clock" (never turned into a verdict about the code).
 RL_PER_MS = 5000
-WALL_FACTOR = 8.0
-WALL_SLACK = 60.0
+WALL_FACTOR = 6.0
+WALL_SLACK = 45.0
 WALLCLOCK_HITS = []
 STATS = dict(checks=0, seconds=0.0, rlimit_last=0)
 
@@ -128,8 +128,15 @@ def _retry(pc, goal, timeout_ms):
     return False
 
 
+class _Stuck(Exception):
+    """z3 ignored its resource limit and had to be interrupted: further stages on the same query would only burn wall clock."""
+
+
 def _check(pc, goal, timeout_ms, qf_only=False, ematch=False, seed=None):
+    n0 = len(WALLCLOCK_HITS)
     r, s = _check0(pc, goal, timeout_ms, qf_only, ematch, seed)
+    if len(WALLCLOCK_HITS) > n0 and r == z3.unknown:
+        raise _Stuck(s)
     if os.environ.get("PYVC_TRACE"):
         print("    [stage qf=%s ematch=%s seed=%s budget=%d -> %s %s]" % (qf_only, ematch, seed, timeout_ms, r, STATS.get("last_s")), flush=True)
     return r, s
@@ -188,6 +195,15 @@ def _guarded_check(s, timeout_ms, who="prove"):
 
 
 def prove(pc, goal, timeout_ms=None, want_model=True, external=True):
+    t0 = time.time()
+    try:
+        return _prove(pc, goal, timeout_ms, want_model, external)
+    except _Stuck as e:
+        return dict(verdict="unknown", backend="z3-5.1.0", model=None, ms=(time.time() - t0) * 1000.0,
+                    reason="interrupted [wall-clock safety net fired: the solver ignored its resource limit on this query]")
+
+
+def _prove(pc, goal, timeout_ms=None, want_model=True, external=True):
     """Is pc -> goal valid?  Returns dict(verdict=unsat|sat|unknown, backend, ms, model).
     Staged: (A) full query, short budget; (B) quantifier-free subset of the assumptions (sound: fewer assumptions);
     (C) pure E-matching; (D) full query, full budget; (E) re-seeded runs, cvc5, z3 4.8 on the SMT-LIB text."""
